@@ -15,6 +15,14 @@ Engine E2 (histories, DESIGN §2.2/§4 C09).  A generated project
                            file next to the package and leave the other in place (the *winner*
                            of the lookup changes, or must not change, while the old file stays)
 
+    shp/ + shp-stubs/      an untyped package with a sub-package `units` and its PEP 561 stub-only
+                           tree; `shp-stubs/units/` exists at first without `__init__.pyi`;
+                           `+stubs_init`/`-stubs_init` add/remove that file, `+stubs_mod`/
+                           `-stubs_mod` add/remove `shp-stubs/units/extra.pyi`
+    m.py also defines `func(...)` and `K.__init__(...)` with a different parameter list in every
+    version; `get_signatures` is asked inside `m.func()`, `func()`, `K()`, `m.K()`,
+    `sub.subfunc()`, `pkg.relsub.subfunc()`.
+
 is driven through every history of file-system events of bounded depth.  After *every* event a
 new `Script` is built (same process — unless the event was `restart`, which continues in a new
 process with the same `settings.cache_directory`) and complete/infer/goto are asked through each
@@ -26,7 +34,9 @@ Ownership of nondeterminism (DESIGN §2.3): the explorer owns the file clock.  A
 write/delete/rename the touched files *and their directories* are stamped with `os.utime` from a
 virtual clock (`advance` = +1 s per event, the default; deviations: `~s` same tick, `~o` the
 file carries an old mtime while the directory advances).  Pickles written by a step are stamped
-with the step's virtual time.  Every history lives in its own directory (project and cache directory nothing has seen before).
+with the step's virtual time.  The wall clock of jedi's time-limited caches (`jedi.cache.time`,
+e.g. the 3 s call-signature cache) is owned as well: 0 s pass between two Scripts by default
+(adversarial), the answer `~w` lets 4 s pass before the next Script.  Every history lives in its own directory (project and cache directory nothing has seen before).
 Histories run inside a long-lived worker with the worker's long-lived helper subprocess (cheap;
 what an editor session analysing many projects does); the process after a `restart` is a child
 forked from the worker *before* the history began, with a helper subprocess of its own.
@@ -47,10 +57,11 @@ Classification of a difference at the last step of a history (DESIGN §2.7):
 
 Levels (simplest first; a level's maximal histories have exactly the stated depth, every shorter
 history is one of their prefixes and is judged on the way):
-  quick     full alphabet (20 events) depth<=1 and <=2 with <=1 clock deviation on the 15
-            writing events of the original alphabet; 6-event core depth<=3, none
-  thorough  + 8-event core depth<=3, full alphabet depth<=3, core depth<=4 and <=5, all without
-            deviation
+  quick     full alphabet (24 events) depth<=1 with <=1 deviation (file clock ~s/~o on the 15
+            writing events of the original alphabet, wall clock ~w on every event); depth<=2
+            with <=1 file-clock deviation; restart-free 6-event core depth<=3 without deviation
+  thorough  + depth<=2 with the wall-clock answer; 8-event core depth<=3, full alphabet
+            depth<=3, core depth<=4 and <=5 without deviation
 Histories with a clock deviation exist to show that the two clock explanations are the *only*
 staleness there is; their failing members are enumerated explicitly in known_findings.json.
 As soon as a level ends with a difference that has no clock explanation, deeper levels are not
@@ -80,15 +91,20 @@ OLD = T0 - 1000          # mtime of a file "moved into place" (~o)
 # generated project
 # ------------------------------------------------------------------------------------------
 M_VER = {
-    'A': "def zfa(x):\n    return 10\nshared = 10\nclass K:\n    ka = 1\n",
-    'B': "def zfb(x):\n    return ''\nshared = ''\nclass K:\n    kb = 2\n",
+    'A': "def zfa(x):\n    return 10\nshared = 10\nclass K:\n    ka = 1\n"
+         "    def __init__(self, p): pass\ndef func(a, b): pass\n",
+    'B': "def zfb(x):\n    return ''\nshared = ''\nclass K:\n    kb = 2\n"
+         "    def __init__(self, q): pass\ndef func(c, d): pass\n",
     'C': "# version C\nimport os\ndef zfc(x, y):\n    return [x]\nshared = [1]\nclass K:\n"
-         "    kc = 3.0\nextra = K()\n",
+         "    kc = 3.0\n    def __init__(self, p, r=1): pass\nextra = K(0)\n"
+         "def func(a, *, key=None): pass\n",
 }
 assert len(M_VER['A']) == len(M_VER['B']) != len(M_VER['C'])
 SUB_VER = {
-    'A': "from m import shared as name\nimport m\ndef subfn():\n    return m.shared\nsub_v = 10\n",
-    'B': "from m import shared as name\nimport m\ndef subfm():\n    return m.shared\nsub_v = ''\n",
+    'A': "from m import shared as name\nimport m\ndef subfn():\n    return m.shared\nsub_v = 10\n"
+         "from m import func as subfunc\n",
+    'B': "from m import shared as name\nimport m\ndef subfm():\n    return m.shared\nsub_v = ''\n"
+         "from m import func as subfunc\n",
 }
 assert len(SUB_VER['A']) == len(SUB_VER['B'])
 STUB = "shared: bytes\ndef fstub(x: int) -> bytes: ...\nclass K:\n    ks: bytes\n"
@@ -96,6 +112,18 @@ INIT = "from . import sub as relsub\nfrom .sub import name as rel\n"
 STAR = "from m import *\ns_own = 1.0\n"
 CONF_LIB = "cv = 10\ndef in_lib(): pass\n"          # lib/ is a later search-path entry
 CONF_ROOT = "cv = ''\ndef in_root(): pass\n"        # shadows it from the project root
+# an untyped runtime package and its PEP 561 stub-only tree next to it; the stub folder of the
+# sub-package exists, at first without __init__.pyi
+SHP = {
+    'shp/__init__.py': "",
+    'shp/units/__init__.py': "def unit(s):\n    return lookup(s)\n",
+    'shp/units/extra.py': "def label(s):\n    return fmt(s)\n",
+    'shp/units/tables.py': "SI = load()\n",
+    'shp-stubs/__init__.pyi': "",
+    'shp-stubs/units/tables.pyi': "SI: dict\n",
+}
+STUBS_INIT = ('shp-stubs/units/__init__.pyi', "def unit(s: object) -> bytes: ...\n")
+STUBS_MOD = ('shp-stubs/units/extra.pyi', "def label(s: object) -> str: ...\n")
 
 MAIN = (
     "import m\n"                    # 1
@@ -129,8 +157,22 @@ MAIN = (
     "import conf\n"                 # 29
     "conf.cv\n"                     # 30
     "conf.\n"                       # 31
+    "m.func()\n"                    # 32   get_signatures inside the brackets
+    "func()\n"                      # 33
+    "K()\n"                         # 34
+    "m.K()\n"                       # 35
+    "sub.subfunc()\n"               # 36
+    "pkg.relsub.subfunc()\n"        # 37
+    "from shp.units import unit\n"              # 38
+    "from shp.units.extra import label\n"       # 39
+    "from shp.units.tables import SI\n"         # 40
+    "ru = unit(1)\n"                # 41
+    "rl = label(1)\n"               # 42
+    "ru\n"                          # 43
+    "rl\n"                          # 44
+    "SI\n"                          # 45
 )
-PROJECT_NAMES = ('m', 'n', 'pkg', 'star', 'main', 'sub', 'conf', 'lib')
+PROJECT_NAMES = ('m', 'n', 'pkg', 'star', 'main', 'sub', 'conf', 'lib', 'shp')
 
 # (form, method, line, column)
 PROBES = [
@@ -153,17 +195,26 @@ PROBES = [
     ('module-listing', 'complete', 26, 7),
     ('import-conf', 'goto', 29, 8), ('import-conf', 'infer', 30, 7), ('import-conf', 'gotof', 30, 7),
     ('import-conf', 'complete', 31, 5),
+    ('import-m', 'sigs', 32, 7), ('import-m', 'sigs', 35, 4),
+    ('from-star-import', 'sigs', 33, 5), ('from-star-import', 'sigs', 34, 2),
+    ('from-pkg-import-sub', 'sigs', 36, 12), ('relative-in-pkg', 'sigs', 37, 19),
+    ('stub-tree', 'goto', 38, 23), ('stub-tree', 'goto', 39, 29), ('stub-tree', 'infer', 43, 2),
+    ('stub-tree', 'infer', 44, 2), ('stub-tree', 'infer', 45, 2), ('stub-tree', 'gotof', 45, 2),
 ]
 
 # ------------------------------------------------------------------------------------------
 # pure model of the file system under the event alphabet
 # ------------------------------------------------------------------------------------------
 FULL = ['wA', 'wB', 'wC', 'del', 'm2p', 'p2m', '+init', '-init', '+pyi', '-pyi', 'ren', 'unren',
-        'touch', 'restart', 'sB', 'sA', 'shadow+', 'shadow-', 'm2p_keep', 'p2m_keep']
-NO_ANSWER = ('restart', 'shadow+', 'shadow-', 'm2p_keep', 'p2m_keep')    # advance only
+        'touch', 'restart', 'sB', 'sA', 'shadow+', 'shadow-', 'm2p_keep', 'p2m_keep',
+        '+stubs_init', '-stubs_init', '+stubs_mod', '-stubs_mod']
+# file clock advances only for these (no ~s / ~o); `restart` takes no answer at all
+NO_ANSWER = ('restart', 'shadow+', 'shadow-', 'm2p_keep', 'p2m_keep',
+             '+stubs_init', '-stubs_init', '+stubs_mod', '-stubs_mod')
 CORE = ['wB', 'wC', 'del', 'm2p', 'p2m', '+pyi', 'ren', 'restart']
 CORE6 = ['wB', 'wC', 'del', 'm2p', '+pyi', 'm2p_keep']     # quick tier's depth-3 level (no restart)
 ANSWERS = ('', '~s', '~o')        # advance (default) | same tick | older file mtime
+WALL = '~w'       # wall clock (jedi.cache.time): > 3 s pass before the next Script (default: 0 s)
 
 
 class FS:
@@ -172,9 +223,10 @@ class FS:
     def __init__(self):
         self.tick = T0
         self.files = {}
-        self.dirs = {'': T0, 'pkg': T0, 'lib': T0}
+        self.dirs = {'': T0, 'pkg': T0, 'lib': T0, 'shp': T0, 'shp/units': T0, 'shp-stubs': T0,
+                     'shp-stubs/units': T0}
         for p, c in (('m.py', M_VER['A']), ('star.py', STAR), ('pkg/__init__.py', INIT),
-                     ('pkg/sub.py', SUB_VER['A']), ('lib/conf.py', CONF_LIB)):
+                     ('pkg/sub.py', SUB_VER['A']), ('lib/conf.py', CONF_LIB)) + tuple(SHP.items()):
             self.files[p] = [c, T0]
         self.log = []          # real-FS operations of the last event
 
@@ -202,6 +254,10 @@ class FS:
             return k == 'mod'
         if ev in ('p2m', 'p2m_keep'):
             return k == 'pkg'
+        if ev in ('+stubs_init', '-stubs_init'):
+            return (STUBS_INIT[0] in self.files) == (ev[0] == '-')
+        if ev in ('+stubs_mod', '-stubs_mod'):
+            return (STUBS_MOD[0] in self.files) == (ev[0] == '-')
         if ev == 'shadow+':
             return 'conf.py' not in self.files
         if ev == 'shadow-':
@@ -285,6 +341,14 @@ class FS:
             self._write('m/__init__.py', M_VER[_next_ver(self.files['m.py'][0])])
         elif ev == 'p2m_keep':      # a module file appears next to the package, which stays
             self._write('m.py', M_VER[_next_ver(self.files['m/__init__.py'][0])])
+        elif ev == '+stubs_init':   # the stub folder of the sub-package becomes a stub package
+            self._write(*STUBS_INIT)
+        elif ev == '-stubs_init':
+            self._remove(STUBS_INIT[0])
+        elif ev == '+stubs_mod':    # a stub module appears in the stub folder
+            self._write(*STUBS_MOD)
+        elif ev == '-stubs_mod':
+            self._remove(STUBS_MOD[0])
         elif ev == 'shadow+':       # same-named module in an earlier search-path entry
             self._write('conf.py', CONF_ROOT)
         elif ev == 'shadow-':
@@ -347,7 +411,7 @@ def _next_ver(content):
 
 
 def split_event(event):
-    for ans in ('~s', '~o'):
+    for ans in ('~s', '~o', WALL):
         if event.endswith(ans):
             return event[:-2], ans
     return event, ''
@@ -387,9 +451,10 @@ def poison(steps):
     return None
 
 
-def enumerate_histories(alphabet, depth, max_dev):
+def enumerate_histories(alphabet, depth, max_dev, wall=False):
     """All enabled histories of exactly `depth` events (shorter ones are their prefixes; some
-    event is enabled in every state) with at most max_dev non-default clock answers."""
+    event is enabled in every state) with at most max_dev non-default clock answers (file clock
+    ~s/~o; with wall=True also the wall-clock answer ~w)."""
     out = []
 
     def rec(prefix, devs):
@@ -403,8 +468,10 @@ def enumerate_histories(alphabet, depth, max_dev):
         for ev in alphabet:
             if not fs.enabled(ev, prev):
                 continue
-            for ans in ANSWERS:
-                if ans and (ev in NO_ANSWER or devs >= max_dev):
+            for ans in ANSWERS + ((WALL,) if wall else ()):
+                if ans and devs >= max_dev:
+                    continue
+                if ans == WALL and ev == 'restart' or ans in ('~s', '~o') and ev in NO_ANSWER:
                     continue
                 rec(prefix + [ev + ans], devs + (1 if ans else 0))
     rec([], 0)
@@ -501,6 +568,9 @@ def _battery(jedi, env, project, root):
                 o = sorted(_canon_name(d, root) for d in script.infer(line, col))
             elif method == 'goto':
                 o = sorted(_canon_name(d, root) for d in script.goto(line, col))
+            elif method == 'sigs':
+                o = sorted([x.name, [p_.to_string() for p_ in x.params], x.index,
+                            list(x.bracket_start)] for x in script.get_signatures(line, col))
             else:
                 o = sorted(_canon_name(d, root) for d in script.goto(
                     line, col, follow_imports=True))
@@ -515,6 +585,25 @@ def _battery(jedi, env, project, root):
 def _project(jedi, root):
     """Two search-path entries of the project: the root, then root/lib."""
     return jedi.Project(root, added_sys_path=[os.path.join(root, 'lib')])
+
+
+class _VClock:
+    """Replaces the `time` module inside jedi.cache: the explorer owns how much time passes
+    between two Scripts (0 s by default - adversarial for time-limited caches; `~w`: 4 s, more
+    than settings.call_signatures_validity)."""
+    def __init__(self):
+        self.now = float(T0)
+
+    def time(self):
+        return self.now
+
+
+VCLOCK = _VClock()
+
+
+def _own_wall_clock():
+    import jedi.cache
+    jedi.cache.time = VCLOCK
 
 
 def _new_env():
@@ -554,13 +643,14 @@ def _init():
     os.environ['PYTHONPYCACHEPREFIX'] = os.path.join(scratch, 'pyc')
     os.environ.pop('PYTHONDONTWRITEBYTECODE', None)
     jedi = boot.boot()
+    _own_wall_clock()
     root = os.path.join(scratch, 'c09-warm-%d' % os.getpid())
     for p, c in WARM_FILES.items():
         os.makedirs(os.path.dirname(os.path.join(root, p)), exist_ok=True)
         with open(os.path.join(root, p), 'w') as f:
             f.write(c)
     text = MAIN
-    for a, b in (('pkg', 'wu_pkg'), ('sub', 'wu_sub'), ('star', 'wu_star'), ('conf', 'wu_conf'),
+    for a, b in (('pkg', 'wu_pkg'), ('sub', 'wu_sub'), ('star', 'wu_star'), ('conf', 'wu_conf'), ('shp', 'wu_shp'),
                  ('import m', 'import wu_m as m'),
                  ('from m ', 'from wu_m ')):
         text = text.replace(a, b)
@@ -603,6 +693,8 @@ def _run_steps(jedi, env, hdir, events, first_step, last_step):
         else:
             _disk_apply(root, fs.apply(events[k - 1]))
         _disk_check(root, fs)
+        if k > 0 and split_event(events[k - 1])[1] == WALL:
+            VCLOCK.now += 4.0
         obs = _battery(jedi, env, project, root)
         _stamp_pickles(cache_dir, fs.tick)
         out.append(obs)
@@ -917,17 +1009,20 @@ def _confirm_isolated(events):
 
 
 def _families(tier):
-    """(level name, alphabet, exact depth of the maximal histories, max clock deviations);
-    simplest first.  Every history of smaller depth is a prefix of one of these."""
+    """(level name, alphabet, exact depth of the maximal histories, max clock deviations, wall-clock
+    answer explored?); simplest first.  Every history of smaller depth is a prefix of one of these."""
+    quick = [('full24/depth<=1/dev<=1+wall', FULL, 1, 1, True),
+             ('full24/depth<=2/dev<=1', FULL, 2, 1, False),
+             ('core6/depth<=3/dev=0', CORE6, 3, 0, False)]
     if tier == 'quick':
-        return [('full20/depth<=1/dev<=1', FULL, 1, 1), ('full20/depth<=2/dev<=1', FULL, 2, 1),
-                ('core6/depth<=3/dev=0', CORE6, 3, 0)]
-    # Clock deviations stay at depth <= 2 in both tiers, so that the explicit list of inputs of
-    # the two clock findings in known_findings.json is the same for quick and thorough.
-    return [('full20/depth<=1/dev<=1', FULL, 1, 1), ('full20/depth<=2/dev<=1', FULL, 2, 1),
-            ('core6/depth<=3/dev=0', CORE6, 3, 0), ('core8/depth<=3/dev=0', CORE, 3, 0),
-            ('full20/depth<=3/dev=0', FULL, 3, 0),
-            ('core8/depth<=4/dev=0', CORE, 4, 0), ('core8/depth<=5/dev=0', CORE, 5, 0)]
+        return quick
+    # File-clock deviations stay at depth <= 2 in both tiers, so that the explicit list of inputs
+    # of the two clock findings in known_findings.json is the same for quick and thorough.
+    return quick + [('full24/depth<=2/dev<=1+wall', FULL, 2, 1, True),
+                    ('core8/depth<=3/dev=0', CORE, 3, 0, False),
+                    ('full24/depth<=3/dev=0', FULL, 3, 0, False),
+                    ('core8/depth<=4/dev=0', CORE, 4, 0, False),
+                    ('core8/depth<=5/dev=0', CORE, 5, 0, False)]
 
 
 def _oracles_for(ctx, snaps, table):
@@ -952,9 +1047,9 @@ def run(ctx):
     if os.environ.get('JV_C09_DEV_MAX_LEVEL'):      # development aid only
         fams = fams[:int(os.environ['JV_C09_DEV_MAX_LEVEL'])]
         ctx.note('DEV: only the first %d levels' % len(fams))
-    for name, alpha, depth, dev in fams:
+    for name, alpha, depth, dev, wall in fams:
         hs = []
-        for h in enumerate_histories(alpha, depth, dev):
+        for h in enumerate_histories(alpha, depth, dev, wall):
             if tuple(h) not in seen_hist:
                 seen_hist.add(tuple(h))
                 hs.append(h)
@@ -1132,6 +1227,7 @@ def run(ctx):
         'settings.cache_directory is shared by all segments of a history and private to it; '
         'differences without a clock explanation are re-judged from the pristine parent before '
         'being reported',
+        'wall clock of jedi.cache (time-limited caches): virtual, 0 s between Scripts, ~w = 4 s',
         'file clock: virtual, origin %d, +1 s per event on written files and the directories whose '
         'entries changed or that contain a written file; ~s = no advance; ~o = file mtime %d, '
         'directories advance; pickles are stamped with the virtual time of the step that wrote them'
